@@ -540,6 +540,21 @@ def chain_check(ctx):
                             rec.violation(f"C15:chain:same-atom-{k}-times-does-not-count-distinct-tags", query=q, annotation=text,
                                           tags_matching_the_atom=hits, got=got)
     rec.outcome("distinct-tags")
+    # terms that contain a dot (decimal values, dotted labels) are ordinary terms
+    dotted = env.HedString("Label/v1.2, Item-count/1.5, Red", env.schema)
+    for q, want in (("Item-count/1.5", None), ('"Label/v1.2"', True), ("Label/v1.*", True), ('"Label/v1.3"', False),
+                    ("{Label/v1.2, Red:}", None), ("Label/v1.2 && Red", None), ('"Item-count/1.5" && red', True),
+                    ("Label/v2.*", False)):
+        rec.n("evaluations")
+        rec.n("distinct_nontrivial")
+        try:
+            got = bool(env.search(q, dotted))
+        except Exception as e:
+            rec.violation("C15:parser:well-formed-rejected:term-with-a-dot", query=q, error=repr(e)[:200])
+            continue
+        if want is not None and got != want:
+            rec.violation("C15:term-with-a-dot:wrong-answer", query=q, annotation=str(dotted), got=got)
+    rec.outcome("dotted-terms")
 
 
 def service_check(ctx):
